@@ -88,6 +88,8 @@ class MAUPITILinear(nn.Linear, MAUPITIModule):
                 self.b_quantizer.dequantize = False
                 int_bias = self.b_quantizer(linear.bias, self.s_x, self.s_w)
                 int_bias = cast(torch.Tensor, int_bias)
+                # the (otherwise unused) bias parameter holds the integer bias
+                cast(torch.Tensor, self.bias).copy_(int_bias)
 
         self.scale, self.shift = self._integer_approximation(self.s_w, self.s_x, self.s_y,
                                                              int_bias)
